@@ -660,7 +660,8 @@ type CallRec struct {
 	G1      string `json:"g1"`   // caller's gas when it continued
 	Gin     string `json:"gin"`  // callee's gas at its first instruction ("" when not entered)
 	light   bool   // a site outside the program's code (inside the recursive helper): tracked, not projected, not emitted
-	Rev     bool   `json:"rev"` // the callee's last instruction was a REVERT that executed (a failed frame that keeps its gas)
+	Coll    bool   `json:"coll"` // a creation that was refused although the creator could pay the endowment: the address is taken
+	Rev     bool   `json:"rev"`  // the callee's last instruction was a REVERT that executed (a failed frame that keeps its gas)
 	Pre     *World `json:"pre"`
 	Post    *World `json:"post"`
 	depth   int
@@ -1052,6 +1053,11 @@ func execute(b *Beh, e *env, c *compiler, codes map[string][]byte, root *frame, 
 		if f, ok := idx[sd.Frame]; ok {
 			sd.Frame = f
 			sds = append(sds, sd)
+		}
+	}
+	for _, r := range emit {
+		if (r.Op == "CREATE" || r.Op == "CREATE2") && r.Closed && !r.Ok && !r.Entered && r.Site > 0 && r.Pre != nil {
+			r.Coll = int64(b.Prog[r.Site-1].Val) <= r.Pre.Bal[r.From]
 		}
 	}
 	res.recs = emit
